@@ -11,6 +11,7 @@ from ..engine import *
 from .. import hook, dexasm, javamini
 from ..dexasm import Cls, Mth, Code
 
+LEVEL = 'translation_validation'
 FUNCS = ['androguard.decompiler.control_flow.short_circuit_struct / MergeNodes', 'identify_structures', 'if_struct',
          'androguard.decompiler.basic_blocks.Condition.neg / visit', 'ShortCircuitBlock.neg / visit_cond', 'CondBlock.neg',
          'androguard.decompiler.instruction.ConditionalZExpression.neg / visit', 'androguard.decompiler.writer.Writer.visit_cond_node',
@@ -190,7 +191,8 @@ def job(jc, spec):
                 jc.obligation(eng, pc, z3.BoolVal(False), ext, label=label, what='printed method does not return an int on this path (%s)' % tag)
                 continue
             jc.obligation(eng, pc, val[1] == want, ext, label=label, what='printed condition routes to another exit than the branch chain')
-    jc.sample(dict(case='K=%d programs %d..%d' % (K, lo, hi), with_merged_condition=merged, example=srcs.get('f0', '')[:400]), limit=4)
+    jc.sample(dict(case='K=%d programs %d..%d%s' % (K, lo, hi, ' joined' if join else ''), with_merged_condition=merged, example=srcs.get('f0', '')[:400]), limit=4)
+    return dict(programs=len(progs), merged=merged)
 
 
 def run(ctx):
@@ -223,7 +225,11 @@ def run(ctx):
                          'chains inside loops, switches or try blocks']
     ctx.expect_reach(['programs', 'merged conditions'])
     ctx.diff_unhooked(sys.modules[__name__], [dict(K=2, lo=0, hi=24), dict(K=3, lo=100, hi=110), dict(K=3, lo=200, hi=210, join=True)])
-    ctx.pmap(job, jobs)
+    res = [r for r in ctx.pmap(job, jobs) if r]
+    ctx.extra_cov['programs'] = sum(r['merged'] for r in res)
+    ctx.extra_cov['programs_decompiled'] = sum(r['programs'] for r in res)
+    ctx.extra_cov['disagreements_checked'] = ctx.stats.obligations
+    ctx.extra_cov['programs_note'] = 'programs = chains whose printed source contains a merged (&& / ||) condition; only those are judged'
 
 
 def concrete(c):
